@@ -137,7 +137,12 @@ WRAP:
 			t = time.Date(t.Year(), t.Month(), t.Day(), 0, 0, 0, 0, loc)
 		}
 		// Notice if the hour is no longer midnight due to DST.
-		t = dayStart(t.AddDate(0, 0, 1))
+		next := dayStart(t.AddDate(0, 0, 1))
+		if !next.After(t) {
+			// The next local day does not exist (the zone moved across the date line).
+			next = dayStart(t.AddDate(0, 0, 2))
+		}
+		t = next
 
 		if t.Day() == 1 {
 			goto WRAP
